@@ -116,7 +116,7 @@ func tokenize(s string) ([]token, error) {
 		case unicode.IsLetter(c) || c == '_':
 			bt, bl := readBareword(s[i:])
 			tnr := tBare
-			if n, ok := keywords[strings.ToUpper(bt)]; ok {
+			if n, ok := keywords[upperASCII(bt)]; ok {
 				tnr = n
 			}
 			res = append(res, stoken(tnr, bt))
@@ -250,4 +250,16 @@ func readQuoted(close rune, s string, allowEscape bool) (string, int) {
 		}
 	}
 	return "", -1
+}
+
+// upperASCII maps a-z to A-Z and nothing else: for SQLite only ASCII letters
+// are case insensitive. `unıque` (dotless i) is an identifier, not a keyword.
+func upperASCII(s string) string {
+	b := []byte(s)
+	for i, c := range b {
+		if c >= 'a' && c <= 'z' {
+			b[i] = c - 'a' + 'A'
+		}
+	}
+	return string(b)
 }
